@@ -665,6 +665,19 @@ func generateSpecFile(p *packages.Package, pc *PkgContracts) (string, error) {
 		}
 		for _, c := range fc.RetAsrt {
 			pos := findReturnSite(body, c.Site)
+			if strings.HasSuffix(c.Site, "#end") {
+				// the implicit return at the closing brace of a function without results: the
+				// clause sees the function's outermost local scope (at the brace)
+				pos = body.End() - 1
+				c.SitePos = "end"
+				sc := p.Types.Scope().Innermost(pos)
+				ps, err := g.clauseParams(c.Text, sc, pos, sig, fmt.Sprintf("%s:%d", pc.File, c.Line))
+				if err != nil {
+					return "", err
+				}
+				g.emitClause(c, prefix, ps)
+				continue
+			}
 			if pos == token.NoPos {
 				fmt.Fprintf(os.Stderr, "gcv: %s: func %s has no %s, clause dropped\n", pc.File, fc.Key, c.Site)
 				continue
